@@ -208,7 +208,7 @@ for _mod, _cls, _self in (("inference.system_w_z3", "SystemWZ3", Z.WZ), ("infere
         axioms=XI_AXIOMS,
         exclude=["enum.distinct.Cnd", "mem.intro.Cnd"],
         loops={0: LoopSpec("for conditional in part", _xi_inv0), 1: LoopSpec("while True", _xi_inv1)},
-        properties=["C03", "C07", "C11"] if _cls == "SystemWZ3" else ["C04", "C07", "C11"],
+        properties=["C03", "C07", "C11", "C14"] if _cls == "SystemWZ3" else ["C04", "C07", "C11", "C14"],
         fuel=8,
         note="the enumeration loop against AllMin / Exhaustive; `result == MinFam(H, part)` is derived by lemma XI.bridge; relative to the optimum contract of z3.Optimize.model()",
     )
